@@ -4,7 +4,7 @@ import SwhVerif.Lemmas.MerkleStep
 (C10/C14 helper lemmas, part 7)
 -/
 namespace Swh.Merkle
-variable {H : Type} {hashFn : Data → List (Name × H) → H}
+variable {H : Type} {hashFn : Data → List (EntryV H) → H}
 
 theorem StepPost.of_ic {h : Heap H} {op : Op} {r : Heap H × Out H} (p : PostIC hashFn h r)
     (ho : OutOk hashFn r.1 op r.2) : StepPost hashFn h op r :=
@@ -134,7 +134,7 @@ theorem step_post {h : Heap H} (i : Inv hashFn h) (a : Acyclic h) (op : Op) :
 /-! ### histories -/
 
 /-- every heap along the history `ops` started in `h` is acyclic -/
-def AcyclicHist (hashFn : Data → List (Name × H) → H) : Heap H → List Op → Prop
+def AcyclicHist (hashFn : Data → List (EntryV H) → H) : Heap H → List Op → Prop
   | h, [] => Acyclic h
   | h, op :: ops => Acyclic h ∧ AcyclicHist hashFn (step hashFn h op).1 ops
 
@@ -145,7 +145,7 @@ theorem AcyclicHist.head {h : Heap H} {ops : List Op} (a : AcyclicHist hashFn h 
   | cons _ _ => exact a.1
 
 /-- the heap reached by a history -/
-def runHeap (hashFn : Data → List (Name × H) → H) (h : Heap H) (ops : List Op) : Heap H :=
+def runHeap (hashFn : Data → List (EntryV H) → H) (h : Heap H) (ops : List Op) : Heap H :=
   ops.foldl (fun g op => (step hashFn g op).1) h
 
 theorem run_eq (h : Heap H) (ops : List Op) :
@@ -196,10 +196,10 @@ def logOf (h' : Heap H) (ids : List Id) : Log H :=
   ids.filterMap (fun j => (h'.get j).cache.map (fun v => (j, v)))
 
 /-- one step, recording in the ghost log what a collection returns -/
-def stepL (hashFn : Data → List (Name × H) → H) (s : Heap H × Log H) (op : Op) : Heap H × Log H :=
+def stepL (hashFn : Data → List (EntryV H) → H) (s : Heap H × Log H) (op : Op) : Heap H × Log H :=
   ((step hashFn s.1 op).1, s.2 ++ logOf (step hashFn s.1 op).1 (outIds (step hashFn s.1 op).2))
 
-def runL (hashFn : Data → List (Name × H) → H) (s : Heap H × Log H) (ops : List Op) :
+def runL (hashFn : Data → List (EntryV H) → H) (s : Heap H × Log H) (ops : List Op) :
     Heap H × Log H := ops.foldl (stepL hashFn) s
 
 theorem runL_fst (ops : List Op) (s : Heap H × Log H) :
@@ -268,7 +268,7 @@ theorem klog_stepL {s : Heap H × Log H} (i : Inv hashFn s.1) (a : Acyclic s.1) 
       List.mem_append_left _ hl⟩
 
 /-- a state reached by an acyclic history: invariant, acyclic, (K) with the log -/
-structure Sound (hashFn : Data → List (Name × H) → H) (s : Heap H × Log H) : Prop where
+structure Sound (hashFn : Data → List (EntryV H) → H) (s : Heap H × Log H) : Prop where
   inv : Inv hashFn s.1
   acyclic : Acyclic s.1
   klog : KLog s.1 s.2
